@@ -155,6 +155,16 @@ func errorCodecShape(p *an.Prog) string {
 	var parts []string
 	// encoder: what each returned byte string is the concatenation of, however it is put together
 	for _, rc := range an.ReturnCases(me) {
+		// what is returned for a nil error is not an encoding of an error (v0.0.17 panics there)
+		nilInput := false
+		for _, g := range rc.Guards {
+			if x, trueNonNil, isNil := nilTestOf(g.Cond); isNil && len(me.Params) > 0 && an.Resolve(an.Unwrap(x)) == ssa.Value(me.Params[0]) && g.True != trueNonNil {
+				nilInput = true
+			}
+		}
+		if nilInput {
+			continue
+		}
 		ps, ok := concatParts(rc.Vals[0], 0)
 		if !ok {
 			parts = append(parts, "enc:?")
